@@ -15,7 +15,7 @@ from ..monitors import segstats, robust
 
 TITLE = "Segment statistics and bin tests match their definitions on the right bins"
 RULE = ("bin tables (1..3 chromosomes) with segmentations tiling them: 1..300 bins per segment plus segments with 0 bins (placed in a gap) and 1 bin, "
-        "tied log2 values, weights in (0,1) (bintest) / (0,1] (segmetrics), null-coverage bins; every subset of location/spread/interval statistics, "
+        "tied log2 values, weights in (0,1] (a tenth exactly 1; for bintest a weight-1 bin exactly at its segment's level has no defined p and is counted out), null-coverage bins; every subset of location/spread/interval statistics, "
         "alpha in {0.001, 0.05, 0.5, 0.9}, bootstraps 10..200, smoothed on/off, skip_low; p-vectors of length 1..200 with ties, 0 and 1 for BH. "
         "Distinct by table fingerprint; non-trivial when a segment has >= 2 bins.")
 ASSUMPTIONS = [
@@ -39,6 +39,7 @@ def setup(run):
 
 def _table(rng, bintest=False):
     nchr = int(rng.integers(1, 4))
+    full = (not bintest) or rng.random() < 0.5       # bintest: half the tables hold bins of weight exactly 1
     bins = {k: [] for k in ("chromosome", "start", "end", "gene", "log2", "weight", "depth")}
     segs = {k: [] for k in ("chromosome", "start", "end", "gene", "log2", "probes", "weight")}
     for c in ["chr1", "chr2", "chrX"][:nchr]:
@@ -57,7 +58,7 @@ def _table(rng, bintest=False):
                 if rng.random() < 0.2:
                     v = round(v, 1)       # ties
                 null = (not bintest) and rng.random() < 0.04
-                w = float(rng.uniform(0.05, 0.999)) if rng.random() < 0.9 or bintest else 1.0
+                w = float(rng.uniform(0.05, 0.999)) if rng.random() < 0.9 or not full else 1.0      # `fix` clips weights to at most 1, so exactly 1 occurs
                 bins["chromosome"].append(c); bins["start"].append(pos); bins["end"].append(pos + ln)
                 bins["gene"].append("Antitarget" if rng.random() < 0.3 else f"G{_s}")
                 bins["log2"].append(-20.0 if null else v); bins["weight"].append(w); bins["depth"].append(0.0 if null else float(rng.uniform(1, 300)))
@@ -68,6 +69,11 @@ def _table(rng, bintest=False):
             seg_end = pos if nb == 0 else bins["end"][-1]
             # the segment's log2 need not equal its bins' mean (that is the point of the deviations)
             slog = (float(np.average(vals, weights=wts)) if vals else level) + float(rng.choice([0.0, 0.0, 0.1, -0.3]))
+            if bintest and nb >= 2:
+                # full-weight bins a hair away from the segment level: infinitely significant by the definition (sd = 0), easily lost by a variance floor
+                for k in range(len(bins["log2"]) - nb, len(bins["log2"])):
+                    if bins["weight"][k] == 1.0 and rng.random() < 0.5:
+                        bins["log2"][k] = slog + float(rng.choice([-1, 1])) * float(rng.choice([0.001, 0.004, 0.02]))
             segs["chromosome"].append(c); segs["start"].append(seg_start); segs["end"].append(seg_end); segs["gene"].append("-")
             segs["log2"].append(slog); segs["probes"].append(nb); segs["weight"].append(float(sum(wts)))
             pos = seg_end + int(rng.choice([0, 0, 1000]))
